@@ -1,4 +1,5 @@
 import AkVerif.Lemmas.TableRender
+import AkVerif.Lemmas.TableWidthInv
 import AkVerif.Model.TableFmt
 /-!
 # C12 — tables are rectangular, aligned, width-bounded and account for every record
@@ -59,7 +60,8 @@ theorem blanks_are_blanks (n : Nat) : blanks n = List.replicate n ' ' := by
 /-- Width bounds. After a table has been printed every column has a width `w ≤ max`, and
 `min ≤ w` whenever the configured bounds are consistent (`min ≤ max`); the columns themselves are
 unchanged. The hypothesis (widths already present satisfy the bounds) holds for a fresh table —
-no widths yet — and is re-established by this very theorem, so it holds in every reachable state. -/
+no widths yet — and is re-established by this very theorem; `reach_width_inv` below proves it for every
+reachable state and `width_bounds_reachable` is this theorem without the hypothesis. -/
 theorem width_bounds (t t' : Tbl) (ls : List Line) (h : render t = .ok (t', ls))
     (hinv : ∀ c ∈ t.fmt.cols, ∀ w, c.width = some w → w ≤ c.maxW ∧ (c.minW ≤ c.maxW → c.minW ≤ w)) :
     t'.fmt.cols.map (fun c => { c with width := Option.none })
@@ -75,6 +77,22 @@ theorem width_bounds (t t' : Tbl) (ls : List Line) (h : render t = .ok (t', ls))
     simp only [List.mem_map] at hc
     obtain ⟨cw, hcw, rfl⟩ := hc
     exact ⟨cw.2, rfl, h2 cw hcw⟩
+
+/-- The hypothesis of `width_bounds` holds in every reachable state (`Table.Reach`, Lemmas/TableReach.lean: a table
+built by the constructor — with or without `fields=` —, from column objects, or with `fmt_obj=` from another
+reachable table's format; then printed, re-formatted through `table.fmt = …`, rebuilt, `set_limits`,
+`remove_columns`, in any order): a column that has a negotiated width has it inside its bounds. Every step but
+printing leaves the columns without a width; printing is `width_bounds`. -/
+theorem reach_width_inv (a : CtorArgs) (t : Tbl) (hr : Reach a t) :
+    ∀ c ∈ t.fmt.cols, ∀ w, c.width = some w → w ≤ c.maxW ∧ (c.minW ≤ c.maxW → c.minW ≤ w) :=
+  reach_widthInv hr
+
+/-- Width bounds, in every reachable state, no hypothesis left: whenever a reachable table is printed, every
+column gets a width `w ≤ max`, and `min ≤ w` when `min ≤ max`. -/
+theorem width_bounds_reachable (a : CtorArgs) (t t' : Tbl) (ls : List Line) (hr : Reach a t)
+    (h : render t = .ok (t', ls)) :
+    ∀ c ∈ t'.fmt.cols, ∃ w, c.width = some w ∧ w ≤ c.maxW ∧ (c.minW ≤ c.maxW → c.minW ≤ w) :=
+  (width_bounds t t' ls h (reach_width_inv a t hr)).2
 
 /-- Rectangular. Every printed line — borders, header, titles, records, break lines, the
 skipped-records line, footer — has the same number of visible characters:
@@ -251,6 +269,50 @@ theorem cell_content (t t' : Tbl) (ls : List Line) (h : render t = .ok (t', ls))
   have := joinCells_slice cells j _ hcj
   rw [recordCells_lengths r ws cells hcells, fitText_length] at this
   exact this
+
+/-- Service lines: what they contain. The body is printed line for line from the visible lines `vis`. Where `vis`
+has the skipped-records mark, the body line is `|` + the message `... <n> records skipped` + `|`, with `n` the
+announced number of `limits` (the very number `applyLimits` returns), the message padded with blanks to the inner
+width of the table or, when the table is narrower than the message, cut and ended in dots like any cell. Where
+`vis` has a break mark, the body line is `|`, blanks, `|`. Both are as wide as the table (`rectangular`). -/
+theorem service_lines (t t' : Tbl) (ls : List Line) (h : render t = .ok (t', ls)) :
+    ∃ tls ws nTitle body, Rendered t t' ls tls ws nTitle body ∧
+      let vn := applyLimits t.fmt.limF t.fmt.limL tls t.records.length
+      let tw := tableWidth (ws.map (·.2))
+      let msg := Gen.C12.skippedPrefix ++ intToDec vn.2 ++ Gen.C12.skippedSuffix
+      2 ≤ tw ∧
+      (∀ i : Nat, vn.1[i]? = some TLine.skipped →
+        ∃ inner, body[i]? = some (⟨.skipped, '|' :: (inner ++ ['|'])⟩ : Line) ∧ inner.length = tw - 2 ∧
+          (msg.length ≤ tw - 2 → inner = msg ++ blanks (tw - 2 - msg.length)) ∧
+          (tw - 2 < msg.length →
+            inner = msg.take (tw - 2 - min 3 (tw - 2)) ++ List.replicate (min 3 (tw - 2)) '.')) ∧
+      (∀ i : Nat, vn.1[i]? = some TLine.brk → body[i]? = some (⟨.brk, '|' :: (blanks (tw - 2) ++ ['|'])⟩ : Line)) := by
+  obtain ⟨tls, ws, nTitle, body, R⟩ := render_elim h
+  refine ⟨tls, ws, nTitle, body, R, ?_⟩
+  have hsep : sep = '|' := marks.2.2.1
+  obtain ⟨_, hget⟩ := bodyLines_get _ _ _ _ _ R.body_eq
+  refine ⟨tableWidth_ge_two _ (by simpa using R.ws_ne), ?_, ?_⟩
+  · intro i hi
+    obtain ⟨line, hline, hbl⟩ := hget i _ hi
+    simp only [bodyLine, Except.ok.injEq] at hbl
+    subst hbl
+    have hfit := fit_exact [plain Gen.C12.skippedPrefix,
+      plain (intToDec (applyLimits t.fmt.limF t.fmt.limL tls t.records.length).2 ++ Gen.C12.skippedSuffix)]
+      (tableWidth (ws.map (·.2)) - 2) .left
+    have htext : textOf [plain Gen.C12.skippedPrefix,
+        plain (intToDec (applyLimits t.fmt.limF t.fmt.limL tls t.records.length).2 ++ Gen.C12.skippedSuffix)]
+        = Gen.C12.skippedPrefix ++ intToDec (applyLimits t.fmt.limF t.fmt.limL tls t.records.length).2
+          ++ Gen.C12.skippedSuffix := by
+      simp [textOf, plain]
+    rw [htext] at hfit
+    refine ⟨_, ?_, hfit.1, hfit.2.1, hfit.2.2⟩
+    rw [hline]
+    simp only [framed, fitText, hsep]
+  · intro i hi
+    obtain ⟨line, hline, hbl⟩ := hget i _ hi
+    simp only [bodyLine, Except.ok.injEq] at hbl
+    subst hbl
+    rw [hline, hsep]
 
 /-- a default-type cell is `str(value)`, numbers and keywords to the right -/
 theorem cell_default (m : Option (List Char)) (v : Val) (cell : Chunks × Align)
@@ -667,6 +729,16 @@ example : (render demo).map (fun x => x.2.map (fun l => String.ofList l.text)) =
 
 example : (render demo).map (fun x => (x.1.fmt.anySkipped, x.1.fmt.cols.map (·.width)))
     = .ok (some true, [some 2, some 4, some 16]) := by decide +kernel
+
+/-! the demo table is a reachable state: it is what the constructor makes -/
+
+private def demoArgs : CtorArgs :=
+  { records := demo.records,
+    fields := some [⟨"id".toList, .dflt, .none, Option.none⟩, ⟨"name".toList, .dflt, .none, Option.none⟩],
+    fmt := some "id!,name:4,name:16-20;1:1".toList, limits := Option.none, header := some "H".toList,
+    footer := Option.none, skip := Option.none }
+
+example : mkTable demoArgs = .ok demo := by decide +kernel
 
 /-! The witness of the fixed defect 0b2b8bb (enum caches keyed by Python equality): enum `{1: one,
 2: two}`, rows `True`, `1`, `1.0`, `7.0`, `7`. In the model the cell is a function of the record's
